@@ -172,6 +172,8 @@ def c12(tier, seed):
               name="F2 demo (boot_sigma reads process entropy: Functional violated after two equal gaussian calls)")
     common.mc(run, "MC_ClientHistory", "MC_ClientHistory_demo_F17.cfg", expect_violation="Functional", workers=2, timeout=300,
               name="F17 demo (a margin run leaves its columns in the caller's frame; the next run on that frame keeps the turnout as weights)")
+    common.mc(run, "MC_ClientHistory", "MC_ClientHistory_demo_feed.cfg", expect_violation="Functional", workers=2, timeout=300,
+              name="demo: derived results columns written into the caller's feed frame make a later turnout run differ (FeedCopied = FALSE)")
     common.mc(run, "MC_ClientHistory", "MC_ClientHistory_demo_summary.cfg", expect_violation="Functional", workers=4, timeout=300,
               name="design mutant demo: the weight-dependent part of the national summary kept on the model object")
     if not quick:
